@@ -101,13 +101,14 @@ func (g *gen) mutate(p *pbuf, cmdForSizes string) ([]byte, string) {
 		return g.mutCount(p)
 	case x < 16:
 		return g.mutBytes(p)
-	case x < 17: // two mutations
+	case x < 18: // two mutations
+		if g.r.Intn(4) == 0 {
+			return g.mutCountCut(p)
+		}
 		b, t1 := g.mutCount(p)
 		q := &pbuf{b: b, bounds: p.bounds}
 		b2, t2 := g.mutTrunc(q)
 		return b2, t1 + "+" + t2
-	case x < 18:
-		return g.mutCountCut(p)
 	default:
 		return g.sizeClass(cmdForSizes)
 	}
@@ -587,6 +588,9 @@ func libChildMain(args []string) {
 		if us > st.MaxCaseUs {
 			st.MaxCaseUs = us
 		}
+		if us > 20000 {
+			dropGarbage()
+		}
 		if us > 1e6 && len(st.Slow) < 50 {
 			st.Slow = append(st.Slow, fmt.Sprintf("case %d %s [%s] %d ms", n, lc.Entry, lc.Family, us/1000))
 			writeStats()
@@ -639,7 +643,7 @@ func runLibrary(total int) {
 		}
 		segs = append(segs, seg{s, e})
 	}
-	vlib.Parallel(len(segs), 6, func(i int) {
+	vlib.Parallel(len(segs), 5, func(i int) {
 		cur := segs[i].from
 		attempt := 0
 		for cur < segs[i].to {
@@ -691,6 +695,8 @@ func runLibrary(total int) {
 			switch {
 			case res.TimedOut:
 				run.Inconclusive("library child watchdog fired at case %d (%s)", at, w.Entry)
+			case res.ExitCode == exitHang && hangConfirmed("lib-hang/"+w.Entry):
+				run.Count("lib.hang_suspects_at_a_site_already_confirmed_in_this_run", 1)
 			case res.ExitCode == exitHang:
 				var same atomic.Int32
 				vlib.Parallel(3, 3, func(k int) {
@@ -700,6 +706,7 @@ func runLibrary(total int) {
 				})
 				w.Stack = tail(string(logb), 4000)
 				if same.Load() == 3 {
+					markHangConfirmed("lib-hang/" + w.Entry)
 					run.Violation("lib-hang/"+w.Entry, fmt.Sprintf("%s does not return within %v on this input (3/3 alone)", w.Entry, 2*scriptWdog), w)
 				} else {
 					run.Inconclusive("library case %d (%s) exceeded the watchdog once, reproduced %d/3", at, w.Entry, same.Load())
